@@ -49,7 +49,7 @@ add("C09", "TestC09",
           "Oracle: the transcript (records, error classes and texts, checksums) under each schedule equals the single-chunk transcript. "
           "Non-trivial: >= 2 results before the terminal one and a schedule with a forced cut inside one of those byte pairs; distinct by "
           "SHA-256 of the serialised case."),
-    quick={"checks": 1500, "shards": 4, "timeout": 600},
+    quick={"checks": 2500, "shards": 4, "timeout": 600},
     thorough={"checks": 20000, "shards": 16, "timeout": 3000, "fuzz": [{"target": "FuzzC09", "time": 180}]},
     floors={"cut=rune": 0.10, "cut=crlf": 0.10, "cut=escape": 0.10, "cut=bom": 0.10, "malformed": 0.10, "zero-reads": 0.2},
     assumptions=["runs of (0,nil) reads are capped at 3 (bufio legitimately gives up with ErrNoProgress after 100)",
